@@ -249,7 +249,7 @@ def run(ctx):
                 "connect/disconnect through stored and proxy outer pins, reference changes, top instance) over 1-3 netlists sharing one heap; "
                 "after EVERY call: outcome class + full state dump vs the Lean model, the statement-level oracle on all objects ever seen, "
                 "and snapshot equality after every refused call. distinct = distinct op scripts; non-trivial = length >= 3" % PROFILE[pid])
-    ctx.assumptions = ["arguments are type-correct spydrnet objects (a Port is never passed where a Cable is expected)",
+    ctx.assumptions = ["element arguments are objects of the right class (a Port is never passed where a Cable is expected); INVALID VALUES of a parameter are generated: a non-integer position on every add_* / connect_pin, a non-instance assigned to top_instance (refused, nothing may change, nothing announced)",
                        "proxy outer pins' own _wire field is not part of the netlist state (DESIGN §5.1)"]
     if ctx.replay:
         item = json.load(open(ctx.replay if os.path.isabs(ctx.replay) else os.path.join(ROOT, ctx.replay)))
